@@ -234,6 +234,7 @@ func propC09(r *Run, w *World) {
 				return
 			}
 			moved, returned := false, false
+			var movedVals []ssa.Value
 			instrsOf(fn, func(in2 ssa.Instruction) {
 				lk, ok := in2.(*ssa.Lookup)
 				if !ok {
@@ -264,6 +265,7 @@ func propC09(r *Run, w *World) {
 				for _, rf := range *val.Referrers() {
 					if st, ok := rf.(*ssa.Store); ok && st.Val == val {
 						moved = true
+						movedVals = append(movedVals, val)
 					}
 					if _, isRet := rf.(*ssa.Return); isRet {
 						returned = true
@@ -303,6 +305,40 @@ func propC09(r *Run, w *World) {
 				}
 			}
 			r.Check(moved, key, c.Pos(), "value stored in the event first", "event.Data["+keyT+"] is deleted without its value having been stored elsewhere in the event: the field is lost")
+			// ... on every path: a path through the delete that neither stores the value nor ends in
+			// a non-nil error (which becomes a warning naming the key) drops the field silently
+			if moved && len(movedVals) > 0 {
+				ps, complete := Paths(fn, PathOpts{Cap: 4096})
+				if complete {
+					bad := ""
+					for _, p := range ps {
+						if p.order(c) < 0 || p.End != "return" {
+							continue
+						}
+						stored := false
+						for _, e := range p.Events {
+							if st, ok := e.Instr.(*ssa.Store); ok && e.Kind == EvStore {
+								for _, mv := range movedVals {
+									if st.Val == mv {
+										stored = true
+									}
+								}
+							}
+						}
+						if stored {
+							continue
+						}
+						if ret := p.Ret(); ret != nil {
+							if ev, has := errResultP(ret); has && ev != nil && !isNilConst(ev) {
+								continue
+							}
+						}
+						bad = compactPath(p)
+					}
+					r.Check(bad == "", key+" on every path", c.Pos(), "stored or reported on every path through the delete",
+						"a path deletes event.Data["+keyT+"] and returns without storing the value or reporting an error: the field vanishes silently: "+bad)
+				}
+			}
 		})
 	}
 	// R4
